@@ -39,3 +39,93 @@ mod sse2;
     target_feature = "sse2",
 ))]
 pub(crate) type ChaChaEngine<const R: usize> = sse2::State<R>;
+
+// ---------------------------------------------------------------------------------------------
+// Verification hooks (only with `--cfg cryptoxide_verif`): the portable engine is compiled next to
+// the SSE2 one, and both are exposed through thin public wrappers.
+
+#[cfg(all(
+    cryptoxide_verif,
+    any(target_arch = "x86", target_arch = "x86_64"),
+    target_feature = "sse2",
+))]
+#[path = "reference.rs"]
+#[allow(dead_code)]
+mod reference_verif;
+
+#[cfg(all(
+    cryptoxide_verif,
+    not(all(
+        any(target_arch = "x86", target_arch = "x86_64"),
+        any(target_feature = "sse2", target_feature = "avx2")
+    ))
+))]
+use reference as reference_verif;
+
+/// Verification hooks: drive the ChaCha engines (native selection and portable) directly
+#[cfg(cryptoxide_verif)]
+pub mod verif {
+    macro_rules! engine_wrapper {
+        ($name:ident, $inner:ty, $doc:expr) => {
+            #[doc = $doc]
+            #[derive(Clone)]
+            pub struct $name<const R: usize>($inner);
+
+            impl<const R: usize> $name<R> {
+                /// `init(key, nonce)`: key of 16 or 32 bytes, nonce of 8, 12 or 16 bytes
+                pub fn init(key: &[u8], nonce: &[u8]) -> Self {
+                    Self(<$inner>::init(key, nonce))
+                }
+                /// serialization of the current (un-rounded) state
+                pub fn state_bytes(&self) -> [u8; 64] {
+                    let mut out = [0u8; 64];
+                    self.0.output_bytes(&mut out);
+                    out
+                }
+                /// rounds + add_back + output_bytes on a copy of the state
+                pub fn block(&self) -> [u8; 64] {
+                    let mut st = self.0.clone();
+                    st.rounds();
+                    st.add_back(&self.0);
+                    let mut out = [0u8; 64];
+                    st.output_bytes(&mut out);
+                    out
+                }
+                /// rounds + output_ad_bytes on a copy of the state (HChaCha)
+                pub fn hblock(&self) -> [u8; 32] {
+                    let mut st = self.0.clone();
+                    st.rounds();
+                    let mut out = [0u8; 32];
+                    st.output_ad_bytes(&mut out);
+                    out
+                }
+                /// `set_counter`
+                pub fn set_counter(&mut self, c: u32) {
+                    self.0.set_counter(c)
+                }
+                /// preset both counter words
+                pub fn set_counter64(&mut self, c: u64) {
+                    self.0.verif_set_counter64(c)
+                }
+                /// `increment`
+                pub fn increment(&mut self) {
+                    self.0.increment()
+                }
+                /// `increment64`
+                pub fn increment64(&mut self) {
+                    self.0.increment64()
+                }
+            }
+        };
+    }
+    engine_wrapper!(
+        Portable,
+        super::reference_verif::State<R>,
+        "the portable reference engine"
+    );
+    engine_wrapper!(
+        Native,
+        super::ChaChaEngine<R>,
+        "the engine selected for this build"
+    );
+}
